@@ -32,9 +32,9 @@ def run(tier):
     for p in alloc:
         p.args = ["--dev", "1", "--batch", "2", "--classes", str(en.cls("REQ", "GUARD", "CONSUME", "SELECT"))]
         p.label += "/alloc-count"
-    args = ["--tier", tier, "--dev", "0", "--batch", "1", "--deadline", str(1500 if thorough else 80)]
+    args = ["--tier", tier, "--dev", "0", "--batch", "1", "--deadline", str(en.TD if thorough else 80)]
     props = "C01,C02,C03,C04,C05,C06,C08,C09,C10,C13,C14,C16,C11"
-    res = en.run_all(chk, props, progs + deep + plan + alloc, args, timeout=(2400 if thorough else 420))
+    res = en.run_all(chk, props, progs + deep + plan + alloc, args, timeout=(en.TD + 900 if thorough else 420))
     # C11 owns sanitizer reports, assertion trips, crashes and the capacity oracles; other monitors' verdicts belong to their own checks
     per = en.aggregate(chk, res, "C11")
     stderr_heads = []
